@@ -79,6 +79,8 @@ pub fn exotic_states(rng: &mut Rng) -> Vec<Screen> {
         (10, 10, Box::new(|s| { s.cursor_position(Some(9), Some(8)); s.save_cursor(); s.resize(Some(5), Some(5)); s.save_cursor(); s.resize(Some(7), Some(12)); })),
         (6, 3, Box::new(|s| { s.set_margins(Some(1), Some(2)); s.save_cursor(); s.set_margins(Some(2), Some(3)); s.set_mode(&[6], true); })),
         (6, 2, Box::new(|s| { s.draw("e"); s.draw("\u{301}"); s.draw("u"); s.draw("\u{308}"); s.cursor_position(Some(2), Some(1)); })),
+        (6, 2, Box::new(|s| { s.draw("\u{263a}"); s.draw("\u{fe0f}"); s.draw("xy"); s.cursor_position(Some(2), Some(1)); s.draw("\u{2764}\u{fe0f}"); })),
+        (4, 2, Box::new(|s| { s.draw("a\u{200d}b"); s.draw("\u{1100}\u{1161}"); })),
         (6, 2, Box::new(|s| { s.define_charset("0", ")"); s.shift_out(); s.draw("lqk"); s.define_charset("U", "("); })),
         (6, 2, Box::new(|s| { s.set_title("t\u{e9}"); s.set_icon_name("i"); s.draw("x"); s.display(); })),
         (7, 3, Box::new(|s| { s.draw("abc"); s.linefeed(); s.draw("\u{4e2d}\u{4e2d}"); s.display(); s.cursor_position(Some(2), Some(5)); s.delete_characters(Some(1)); })),
